@@ -156,8 +156,8 @@ SleepBounded(c) == LET v == SleepVerdict(c) IN
   /\ (c.cancelat > 0 => v.slept <= c.cancelat)
   /\ (v.out \in {"sleep-limit-exceeded", "error"} => v.slept = 0)
   /\ (~c.cancelled /\ c.max = 0 /\ c.d > HOUR => v.out = "sleep-limit-exceeded")
-SleepCases == IF MODE # "sleep" THEN {} ELSE [d : {-5, 0, 40, 300, 2000, HOUR, HOUR + 1, 2 * HOUR}, max : {0, -1, 30, 1000, HOUR + 5, 3 * HOUR},
-               ceiling : {0, 100, 2000, 2 * HOUR}, deadline : {0, 150, 1500}, cancelled : BOOLEAN, cancelat : {0, 120}]
+SleepCases == IF MODE # "sleep" THEN {} ELSE [d : {-5, 0, 40, 300, 2000, 3000, HOUR, HOUR + 1, 2 * HOUR}, max : {0, -1, 30, 1000, HOUR + 5, 3 * HOUR},
+               ceiling : {0, 100, 2000, 2 * HOUR}, deadline : {0, 150, 1500, 60000}, cancelled : BOOLEAN, cancelat : {0, 120}]
 
 -----------------------------------------------------------------------------
 \* field spellings
